@@ -272,6 +272,7 @@ fn check_parked(rt: &tokio::runtime::Runtime, others: usize, hold_ms: u64) -> Ve
     let log = built.log.clone();
     let rs = Arc::new(built.ruleset);
     PARK_RELEASE.store(false, Ordering::SeqCst);
+    rvv::probe::PARK_ONCE.store(true, Ordering::SeqCst);
     let (parked_out, others_ok) = rt.block_on(async {
         let rs1 = rs.clone();
         let parked = tokio::spawn(async move { detach(rs1.evaluate_value(&rvv::pool::map(&[("id", Value::Int(1000))])).await.expect("evaluate_value")) });
@@ -364,6 +365,7 @@ fn check_same_address_inputs(rt: &tokio::runtime::Runtime) -> Verdict {
     let log = built.log.clone();
     let rs = Arc::new(built.ruleset);
     PARK_RELEASE.store(false, Ordering::SeqCst);
+    rvv::probe::PARK_ONCE.store(true, Ordering::SeqCst);
     let (held, inner, other) = rt.block_on(async {
         let (rs1, m1) = (rs.clone(), message.clone());
         let held = tokio::spawn(async move { detach(rs1.evaluate(&*m1).await.expect("evaluate")) });
